@@ -348,6 +348,13 @@ func c04Policy(r *Rng, kind int, ntasks int, totalSteps int64) policy {
 			prio[best] = -int(done) // lowest so far
 			return best, next
 		}}
+	case 4: // preempt right after a synchronisation operation (atomic, lock, unlock, Once, pool)
+		k := int64(r.Range(1, 3))
+		q := int64(pick(r, []int{200, 2000, 20000, 1 << 30}))
+		return policy{fmt.Sprintf("sync-preempt(k<=%d,q<=%d)", k, q), func(run []int, last int, _ uint32) (int, int64) {
+			simrt.NextSyncQuantum = 1 + int64(r.U64()%uint64(k))
+			return run[r.Intn(len(run))], 1 + int64(r.U64()%uint64(q))
+		}}
 	default: // round-robin with a random quantum
 		q := int64(pick(r, []int{1, 3, 17, 120, 900}))
 		return policy{fmt.Sprintf("round-robin(q=%d)", q), func(run []int, last int, _ uint32) (int, int64) {
@@ -478,7 +485,7 @@ func c04AloneChild() {
 
 func c04Child(cs *C04Case, i, j int) (string, bool) {
 	cmd := exec.Command(os.Args[0], "c04alone", "-scratch", scratchRoot)
-	cmd.Env = append(os.Environ(), "TZ=UTC")
+	cmd.Env = append(os.Environ(), "TZ="+curTZ)
 	in, _ := json.Marshal(map[string]any{"Case": cs, "I": i, "J": j})
 	cmd.Stdin = bytes.NewReader(in)
 	var so bytes.Buffer
@@ -749,18 +756,24 @@ func (ck c04) RunCase(c *Ctx, idx int) *CaseOut {
 		c.count("use:"+k, 1)
 	}
 	S := c04Schedules(c.Tier)
+	S0 := S
 	seen := map[string]bool{}
 	var targets []c04Target
+	var syncOps int64
 	for s := 0; s < S; s++ {
 		kind := 0
 		if s > 1 {
 			kind = 1 + r.Intn(3)
+			if syncOps > 0 && (r.Chance(0.3) || s >= S0) {
+				kind = 4 // the sequential schedule executed synchronisation operations: preempt around them
+			}
 		}
 		pol := c04Policy(r.Fork(uint64(1000+s)), kind, len(cs.Tasks), total)
 		if s > 1 && len(targets) > 0 && r.Chance(0.5) {
 			pol = c04Directed(r.Fork(uint64(3000+s)), pick(r, targets))
 		}
 		simrt.LogAccesses = s == 1 // the sequential schedule yields the directed targets
+		syncBefore := simrt.SyncOps
 		var fails []c04Fail
 		var rr simrt.RunResult
 		if s == 0 {
@@ -770,6 +783,11 @@ func (ck c04) RunCase(c *Ctx, idx int) *CaseOut {
 			fails, rr = c04RunSchedule(c, cs, alone, pol, c.Sites)
 		}
 		if s == 1 {
+			syncOps = simrt.SyncOps - syncBefore
+			if syncOps > 0 {
+				S += 8 // code with synchronisation in it gets eight more schedules, all preempting around it
+			}
+			c.count("sync_operations_in_sequential_schedule", syncOps)
 			targets = c04Targets(rr.Log)
 			c.count("directed_targets", int64(len(targets)))
 		}
